@@ -22,9 +22,7 @@ def Exc.isValueError : Exc → Bool
 /-! ### str helpers (Python `str` methods used by pathlib) -/
 
 /-- `s.startswith('/')` -/
-def startsSlash : Str → Bool
-  | '/' :: _ => true
-  | _ => false
+def startsSlash (s : Str) : Bool := s.head? == some '/'
 
 /-- `s.endswith(c)` -/
 def endsWithChar (c : Char) (s : Str) : Bool := s.getLast? == some c
@@ -70,11 +68,11 @@ def joinStep (path b : Str) : Str :=
 def joinRaw (paths : List Str) : Str := paths.foldl joinStep []
 
 /-- `posixpath.splitroot` (drive is always empty): `(root, rel)` -/
-def splitroot : Str → Str × Str
-  | '/' :: '/' :: '/' :: t => (['/'], '/' :: '/' :: t)
-  | '/' :: '/' :: t => (['/', '/'], t)
-  | '/' :: t => (['/'], t)
-  | p => ([], p)
+def splitroot (p : Str) : Str × Str :=
+  if p.head? != some '/' then ([], p)                                   -- `p[:1] != sep`
+  else if (p.drop 1).head? != some '/' || (p.drop 2).head? == some '/'  -- `p[1:2] != sep or p[2:3] == sep`
+  then (['/'], p.drop 1)
+  else (['/', '/'], p.drop 2)
 
 /-- `PurePath._parse_path` on the posix flavour: `(root, tail)` -/
 def parsePath (path : Str) : Str × List Str :=
